@@ -16,6 +16,7 @@
 import PyGqlModel.Props.C05_exec
 import PyGqlModel.Props.C05
 import PyGqlModel.Spec.MergeSafe
+import PyGqlModel.Spec.ValidDocR
 
 set_option linter.unusedSimpArgs false
 set_option linter.unusedVariables false
@@ -447,18 +448,50 @@ private theorem executeFields_noIntT (s : SchemaD) (hs : SchemaOk s) (doc : Doc)
           (by rw [h2, h])
       | ok p2 => simp [h2] at h
 
-/-- **validated_no_internal_error** — under the premise the validator guarantees. For every schema whose objects
-    implement their interfaces covariantly and whose fields have known output types, every document satisfying the
-    declarative `ValidDoc` and `MergeSafe` (OverlappingFieldsCanBeMerged; NOT the stronger `KeyConsistent`), EVERY variable
-    assignment (`ValidDoc` no longer constrains the `@skip`/`@include` conditions: a condition that is not a Boolean at run
-    time — `if: [true]`, a nullable variable with a default bound to `null` — is a field error since 4e87d3d, see
-    `Lemmas.C04Raise.executeFields_raised`), every typed world (including iterables and `resolve_type`s that raise
-    `ResolverError`), every operation name and every fuel: the request never ends in an internal exception. -/
-theorem validated_no_internal_error (s : SchemaD) (hs : SchemaOk s) (doc : Doc) (vars : Vars) (hv : ValidDoc s doc vars)
+/-- `ValidDoc` is `ValidDocR` plus "every operation has a root type" -/
+theorem validDocR_of_validDoc (s : SchemaD) (doc : Doc) (vars : Vars) (h : ValidDoc s doc vars) : ValidDocR s doc vars := by
+  unfold ValidDoc validDocB at h
+  unfold ValidDocR validDocRB
+  simp only [Bool.and_eq_true] at h ⊢
+  obtain ⟨⟨⟨hops, hfr⟩, ha⟩, hu⟩ := h
+  refine ⟨⟨⟨?_, hfr⟩, ha⟩, hu⟩
+  unfold opsOk at hops
+  unfold opsOkR
+  rw [List.all_eq_true] at hops ⊢
+  intro o ho
+  have := hops o ho
+  cases hr : rootType s o.kind with
+  | none => simp [hr] at this
+  | some r => simpa [hr] using this
+
+theorem validDoc_of_validDocR (s : SchemaD) (doc : Doc) (vars : Vars) (h : ValidDocR s doc vars) (hr : opsRooted s doc = true) :
+    ValidDoc s doc vars := by
+  unfold ValidDocR validDocRB at h
+  unfold ValidDoc validDocB
+  simp only [Bool.and_eq_true] at h ⊢
+  obtain ⟨⟨⟨hops, hfr⟩, ha⟩, hu⟩ := h
+  refine ⟨⟨⟨?_, hfr⟩, ha⟩, hu⟩
+  unfold opsOkR at hops
+  unfold opsOk
+  unfold opsRooted at hr
+  rw [List.all_eq_true] at hops hr ⊢
+  intro o ho
+  have h1 := hops o ho
+  have h2 := hr o ho
+  cases hrt : rootType s o.kind with
+  | none => simp [hrt] at h2
+  | some r => simpa [hrt] using h1
+
+/-- **validated_no_internal_error_rootless** — the soundness theorem from what `validate_ast(...) == []` really gives:
+    `ValidDocR` does NOT assume that the operation's kind has a root type in the schema (the validator does not check it:
+    `mutation { a }` is accepted on a schema without a mutation type). Such a request ends in the modelled failure
+    "Schema doesn't support mutation operation", never in an internal exception. Everything else as in
+    `validated_no_internal_error` below (which is now a corollary). -/
+theorem validated_no_internal_error_rootless (s : SchemaD) (hs : SchemaOk s) (doc : Doc) (vars : Vars) (hv : ValidDocR s doc vars)
     (hm : MergeSafe s doc) (w : World) (hw : WorldTyped s w) :
     ∀ (op : Option String) (fuel cf : Nat) (cls : String), execute s doc vars w op fuel cf ≠ .failed (.internal cls) := by
   intro op fuel cf cls
-  unfold ValidDoc validDocB at hv
+  unfold ValidDocR validDocRB at hv
   simp only [Bool.and_eq_true] at hv
   obtain ⟨⟨⟨hops, hfr⟩, _⟩, _⟩ := hv
   unfold execute
@@ -474,7 +507,7 @@ theorem validated_no_internal_error (s : SchemaD) (hs : SchemaOk s) (doc : Doc) 
       split
       · simp
       · have hsu : SelsUnderT s doc vars root (tag root o.sels) := by
-          unfold opsOk at hops
+          unfold opsOkR at hops
           rw [List.all_eq_true] at hops
           have := hops o hmem
           simp only [hroot] at this
@@ -490,6 +523,25 @@ theorem validated_no_internal_error (s : SchemaD) (hs : SchemaOk s) (doc : Doc) 
           cases f with
           | internal c => exact absurd hr (this c)
           | _ => simp
+
+/-- non-vacuity and the point of the `R`: `mutation { a }` on a schema without a mutation type is `ValidDocR` (the real
+    validator accepts it) but not `ValidDoc` -/
+example : ValidDocR exSchema { ops := [{ kind := "mutation", name := none, sels := [.field "a" "a" 11 [] [] false []] }], frags := [] } []
+    ∧ ¬ ValidDoc exSchema { ops := [{ kind := "mutation", name := none, sels := [.field "a" "a" 11 [] [] false []] }], frags := [] } [] := by
+  unfold ValidDocR ValidDoc; decide
+
+/-- **validated_no_internal_error** — under the premise the validator guarantees. For every schema whose objects
+    implement their interfaces covariantly and whose fields have known output types, every document satisfying the
+    declarative `ValidDoc` and `MergeSafe` (OverlappingFieldsCanBeMerged; NOT the stronger `KeyConsistent`), EVERY variable
+    assignment (`ValidDoc` no longer constrains the `@skip`/`@include` conditions: a condition that is not a Boolean at run
+    time — `if: [true]`, a nullable variable with a default bound to `null` — is a field error since 4e87d3d, see
+    `Lemmas.C04Raise.executeFields_raised`), every typed world (including iterables and `resolve_type`s that raise
+    `ResolverError`), every operation name and every fuel: the request never ends in an internal exception.
+    (Corollary of `validated_no_internal_error_rootless`, which drops the clause "the operation has a root type".) -/
+theorem validated_no_internal_error (s : SchemaD) (hs : SchemaOk s) (doc : Doc) (vars : Vars) (hv : ValidDoc s doc vars)
+    (hm : MergeSafe s doc) (w : World) (hw : WorldTyped s w) :
+    ∀ (op : Option String) (fuel cf : Nat) (cls : String), execute s doc vars w op fuel cf ≠ .failed (.internal cls) :=
+  validated_no_internal_error_rootless s hs doc vars (validDocR_of_validDoc s doc vars hv) hm w hw
 
 
 /-! ### the Boolean evaluator is sound for the declarative predicate -/
